@@ -466,6 +466,7 @@ def r175(ctx):
 
 def run(ctx):
     ctx.rule("R-17.4", "completed jobs leave the in-flight record (removal before the commit; selector representation agrees with all filling sites)", floor=4)
+    ctx.rule("R-17.6", "the restart file is refreshed completely at every commit: each [current] key write_toml maintains is stored on every path to the dump (a finished run persists an empty in-flight record)", floor=3)
     ctx.rule("R-17.5", "step arithmetic: the comparators of initiate(), loop() and the submission guard give exactly tsteps - c0 consumed results and the same number of submitted jobs (linear counting over c0, tsteps, workers)", floor=4)
     ctx.rule("R-17.1", "each dequeued unit completes its future exactly once and calls task_done exactly once", floor=4)
     ctx.rule("R-17.2", "each result is delivered once; every submitted future is managed; runner stopped on exit", floor=6)
@@ -475,9 +476,13 @@ def run(ctx):
     ctx.attempt(r173, ctx)
     ctx.attempt(r174, ctx)
     ctx.attempt(r175, ctx)
+    from .shared import commit_refreshes_state
+    ctx.attempt(commit_refreshes_state, ctx, "R-17.6", " - e.g. the in-flight record of a finished run still lists the last completed move, which a restart re-issues")
 
 
 VARIANTS = [
+    B("c17-locked-stored-inside-loop", REPEX, '        self.config["current"]["locked"] = locked_ep\n', '            self.config["current"]["locked"] = locked_ep\n', "R-17.6", control=True, why="seeded C17_d"),
+    K("c17-keep-locked-comprehension", REPEX, '        locked_ep = []\n        for tup in self.locked:\n            locked_ep.append(\n                ([int(tup0 + self._offset) for tup0 in tup[0]], tup[1])\n            )\n        self.config["current"]["locked"] = locked_ep\n', '        self.config["current"]["locked"] = [([int(tup0 + self._offset) for tup0 in tup[0]], tup[1]) for tup in self.locked]\n'),
     B("c17-submit-guard-strict", SCHED, "        if state.cstep + state.workers <= state.tsteps:", "        if state.cstep + state.workers < state.tsteps:", "R-17.5", control=True),
     B("c17-submit-guard-loose", SCHED, "        if state.cstep + state.workers <= state.tsteps:", "        if state.cstep + state.workers <= state.tsteps + 1:", "R-17.5"),
     B("c17-submit-guard-ignores-workers-offset", SCHED, "        if state.cstep + state.workers <= state.tsteps:", "        if state.cstep + state.workers - 1 <= state.tsteps:", "R-17.5"),
